@@ -189,7 +189,7 @@ def run_case(ck, paths, idx, tier):
 def run(ck, tier):
     paths = build("asan")
     sc = getattr(ck, "scale", 1.0)
-    n = int((45 if tier == "quick" else 800) * sc)
+    n = int((60 if tier == "quick" else 800) * sc)
     common.pmap(lambda i: run_case(ck, paths, i, tier), range(n), workers=10)
     ck.rule = ("record sets (DNA/RNA/protein, 3..30 and 51..120 records, incl. very short sequences under 100..200-character names) re-presented as: aligned FASTA with 0.05..20 gap "
                "characters per residue using - . ~ * _; FASTA line widths 1..5000; blank lines (1..12 leading), trailing blanks, CRLF, missing final newline; gap characters only in a late record, plain part followed by an aligned part; Clustal W/O/Kalign headers with block "
